@@ -24,7 +24,15 @@
 (*                            quotes as it is (the pinned tree does this); *)
 (*        "bs_raw"            the escaper forgets the backslash;           *)
 (*        "ls_raw"            the escaper forgets U+2028 / U+2029;         *)
-(*        "lt_raw"            the escaper forgets '<'.                     *)
+(*        "lt_raw"            the escaper forgets '<';                     *)
+(*        "post_pass_rewrites_output"  the escaper is not a homomorphism   *)
+(*                            on characters: after the per-character       *)
+(*                            images are concatenated a pass rewrites the   *)
+(*                            image of LF (backslash n) to \x0A wherever   *)
+(*                            that two-unit sequence occurs in the OUTPUT,  *)
+(*                            when the input contains a LF -- it also hits  *)
+(*                            the tail of an escaped backslash followed by  *)
+(*                            the letter n (the TEXT backslash-n).         *)
 (*                                                                         *)
 (* SoyJsLitMC checks RoundTrip and Safe for every string of at most MaxLen *)
 (* symbols of Symbols at every position (Dev = {}: no violation; each      *)
@@ -48,7 +56,7 @@ SL  == 47     \* /
 \* ' " \ LF CR U+2028 U+2029 < / s c > & a e-acute U+1F600 (surrogate pair)
 Symbols == << <<39>>, <<34>>, <<92>>, <<10>>, <<13>>, <<8232>>, <<8233>>,
               <<60>>, <<47>>, <<115>>, <<99>>, <<62>>, <<38>>, <<97>>,
-              <<233>>, <<55357, 56832>> >>
+              <<233>>, <<55357, 56832>>, <<110>> >>       \* ... and n, so that the TEXT backslash-n can be spelled
 
 Positions == {"string", "mapkey"}   \* raw text, css, message text ... behave as "string"
 Delim(pos) == IF pos = "mapkey" THEN DQ ELSE SQ
@@ -77,7 +85,23 @@ EscUnit(u) ==
 RECURSIVE JsStringEscape(_)
 JsStringEscape(s) == IF s = <<>> THEN <<>> ELSE EscUnit(Head(s)) \o JsStringEscape(Tail(s))
 
-Emit(pos, s) == IF pos = "mapkey" /\ "mapkey_unescaped" \in Dev THEN s ELSE JsStringEscape(s)
+\* left-to-right, non-overlapping replacement of the two-unit sequence <<a, b>> by r
+RECURSIVE Replace2(_, _, _, _, _)
+Replace2(o, i, a, b, r) ==
+  IF i > Len(o) THEN <<>>
+  ELSE IF i < Len(o) /\ o[i] = a /\ o[i + 1] = b THEN r \o Replace2(o, i + 2, a, b, r)
+  ELSE <<o[i]>> \o Replace2(o, i + 1, a, b, r)
+
+HasUnit(s, u) == \E i \in 1..Len(s) : s[i] = u
+
+PostPass(s, o) == IF "post_pass_rewrites_output" \in Dev /\ HasUnit(s, LF)
+                  THEN Replace2(o, 1, BSL, 110, <<BSL, 120, 48, 65>>)      \* \n -> \x0A
+                  ELSE o
+
+Emit(pos, s) == IF pos = "mapkey" /\ "mapkey_unescaped" \in Dev THEN s ELSE PostPass(s, JsStringEscape(s))
+
+\* the emitted form is the concatenation of the per-character images and nothing else
+Homomorphic(pos, s) == Emit(pos, s) = JsStringEscape(s)
 
 (***************************************************************************)
 (* The denotation of a literal body.                                       *)
